@@ -320,6 +320,9 @@ func toBitsList(bitDefintions []*meta.Bit, v interface{}) (val.BitsList, error) 
 }
 
 func toBitsValueHandler[V int | uint | int64 | float64](bitDefintions []*meta.Bit, v V) (val.Bits, error) {
+	if v < 0 || float64(v) >= 18446744073709551616.0 || V(uint64(v)) != v {
+		return val.Bits{}, fmt.Errorf("%v is not a set of bit positions", v)
+	}
 	return toBits(bitDefintions, uint64(v))
 }
 
